@@ -27,7 +27,7 @@
 //! stop at a failing operation and every outcome is recorded.
 use crate::dedump::Dump;
 use crate::dump::view_to_json;
-use crate::gen_backend::{decorate, grid_leaves, grid_position, sanitize};
+use crate::gen_backend::{decorate, grid_leaves, grid_position, rename_map_children, sanitize};
 use crate::gen_schema::{self, ValCfg};
 use crate::outcome;
 use crate::rng::Rng;
@@ -111,6 +111,9 @@ pub fn gen(ctx: &Ctx) -> Vec<Value> {
                 if pos % 2 == 0 {
                     f["meta"] = json!([["k", "v"]]);
                 }
+                if pos == 5 && nullable {
+                    rename_map_children(&mut r, &mut f, 1, 1);
+                }
                 let schema = vec![f];
                 let nrows = *r.pick(&[0usize, 1, 3, 9]);
                 let cfg = ValCfg::strict();
@@ -132,6 +135,11 @@ pub fn gen(ctx: &Ctx) -> Vec<Value> {
         if r.chance(3, 5) {
             for f in schema.iter_mut() {
                 decorate(&mut r, f, 1, 2);
+            }
+        }
+        if r.chance(1, 2) {
+            for f in schema.iter_mut() {
+                rename_map_children(&mut r, f, 1, 2);
             }
         }
         let nrows = match r.below(8) {
